@@ -54,7 +54,7 @@ func goid() int64 {
 
 var gatePoints = map[string]bool{
 	"detect.loaded": true, "detect.rlocked": true, "detect.done": true,
-	"ext.locked": true, "ext.published": true,
+	"ext.built": true, "ext.locked": true, "ext.published": true,
 	"lookup.rlocked": true, "lookup.done": true,
 }
 
@@ -62,7 +62,7 @@ var gatePoints = map[string]bool{
 var parkAfter = map[string]string{
 	"DLoad": "detect.loaded", "DRLock": "detect.rlocked", "DWalk": "detect.done", "DRUnlock": "",
 	"SStore": "",
-	"ELock":  "ext.locked", "EPub": "ext.published", "EUnlock": "",
+	"EBuild": "ext.built", "ELock": "ext.locked", "EPub": "ext.published", "EUnlock": "",
 	"LRLock": "lookup.rlocked", "LSearch": "lookup.done", "LRUnlock": "",
 }
 
@@ -124,7 +124,7 @@ func histText(h *sysHist) string {
 			fmt.Fprintf(&b, "%s:Detect(%s) ", a.G, a.X)
 		case "SStore":
 			fmt.Fprintf(&b, "%s:SetLimit(%d) ", a.G, a.V)
-		case "ELock":
+		case "EBuild":
 			fmt.Fprintf(&b, "%s:Extend(%s on %s acc=%v al=%v) ", a.G, a.E, a.P, a.Acc, a.Al)
 		case "LRLock":
 			fmt.Fprintf(&b, "%s:Lookup(%s) ", a.G, a.Name)
@@ -158,12 +158,22 @@ func (r *replayer) call(a sysAct) callResult {
 		return callResult{act: a}
 	case "DLoad":
 		in := exact(r.m.inputs[a.X])
-		res := mimetype.Detect(in)
+		var res *mimetype.MIME
+		if r.rng.Intn(3) == 0 {
+			var err error
+			res, err = mimetype.DetectReader(bytes.NewReader(in))
+			if err != nil {
+				fmt.Fprintln(os.Stderr, "unexpected reader error", err)
+				os.Exit(2)
+			}
+		} else {
+			res = mimetype.Detect(in)
+		}
 		if !bytes.Equal(in, r.m.inputs[a.X]) {
 			r.rep.violate(Violation{Property: "C04", Kind: "caller-buffer-modified", Key: "C04|buffer|" + a.X, Detail: "Detect modified its input " + a.X})
 		}
 		return callResult{act: a, mime: res, input: in}
-	case "ELock":
+	case "EBuild":
 		al, owner := r.mkAliases(a.Al)
 		r.owners = append(r.owners, owner)
 		parent := r.m.node[a.P]
@@ -291,14 +301,14 @@ func (r *replayer) replayDirect(h *sysHist) {
 	for i := range h.H {
 		a := h.H[i]
 		switch a.A {
-		case "DLoad", "SStore", "ELock", "LRLock":
+		case "DLoad", "SStore", "EBuild", "LRLock":
 			cr := r.call(a)
 			pending = &cr
-			if a.A == "ELock" {
+			if a.A == "EBuild" {
 				r.bindExt(a)
 				hadExt = true
 			}
-			if a.A == "SStore" || a.A == "ELock" {
+			if a.A == "SStore" || a.A == "EBuild" {
 				r.afterOp(h)
 			}
 		case "DWalk":
@@ -333,7 +343,7 @@ func (r *replayer) replayGated(h *sysHist, timeout time.Duration) (ok bool) {
 			order = append(order, a.G)
 		}
 		switch a.A {
-		case "DLoad", "SStore", "ELock", "LRLock":
+		case "DLoad", "SStore", "EBuild", "LRLock":
 			p.ops = append(p.ops, a)
 		}
 	}
@@ -461,7 +471,7 @@ func (r *replayer) replayGated(h *sysHist, timeout time.Duration) (ok bool) {
 			if a.A == "EUnlock" {
 				// the lock is free again: bind the published node (Lookup takes the read lock)
 				for j := i - 1; j >= 0; j-- {
-					if h.H[j].G == a.G && h.H[j].A == "ELock" {
+					if h.H[j].G == a.G && h.H[j].A == "EBuild" {
 						r.bindExt(h.H[j])
 						break
 					}
@@ -521,7 +531,7 @@ func sysreplayMain(args []string) int {
 		sawExt := false
 		for _, a := range h.H {
 			procs[a.G] = true
-			if a.A == "ELock" {
+			if a.A == "EBuild" {
 				exts++
 				sawExt = true
 			}
